@@ -109,7 +109,12 @@ def prepare_date(data, schema):
     if isinstance(data, datetime.date):
         return data.toordinal() - DAYS_SHIFT
     elif isinstance(data, str):
-        return datetime.date.fromisoformat(data).toordinal() - DAYS_SHIFT
+        try:
+            return datetime.date.fromisoformat(data).toordinal() - DAYS_SHIFT
+        except ValueError:
+            # Not a date: leave it alone so that it fails validation as an int
+            # and the other branches of a union still get their turn
+            return data
     else:
         return data
 
